@@ -81,6 +81,11 @@ func GenOraclePlan(p *PRNG, cfg Config, o OracleGenOpts) Plan {
 					if p.Chance(1, 10) {
 						op.D = []int{4, 5, 6, 7, -3, 60}[p.Intn(6)]
 					}
+					if o.Hostile && cfg.NOps > 1 && p.Chance(1, 20) {
+						// one signer, two messages: the second attributed to another validator
+						b.Ops = append(b.Ops, Op{K: "price2", A: i, C: (i + 1 + p.Intn(cfg.NOps-1)) % cfg.NOps, B: f, S: truth[tk]})
+						continue
+					}
 					if o.Hostile {
 						switch p.Intn(14) {
 						case 0:
